@@ -70,3 +70,14 @@ VARIANTS += [
     V("bounds-buffers-one-row-only", I, "    n *= n\n", "", "fire", "D9.3",
       "found by the mutation survey: buffers of n instead of n*n cells"),
 ]
+
+VARIANTS += [
+    V("storage-type-from-lower-bound", I,
+      "int_range_to_dtype(min_value=0, max_value=ub)",
+      "int_range_to_dtype(min_value=0, max_value=lb)", "fire", "D9.3",
+      "seed C09-storage-type-from-lower-bound: entries above the lower "
+      "bound's type wrap around"),
+    V("silent-storage-type-positional", I,
+      "int_range_to_dtype(min_value=0, max_value=ub)",
+      "int_range_to_dtype(0, ub)", "silent"),
+]
